@@ -23,10 +23,10 @@ theorem block_step (c : Ctx) (st : BlockSt) (ch : Ch) (hch : ChOk c ch) (hok : b
     simp only [blockStep]
     by_cases hb : c.kind ti = .BlockBegin
     · simp only [hb, beq_self_eq_true, if_true, Bool.and_eq_true, Bool.not_eq_true', emp_iff, List.isEmpty_iff] at hok ⊢
-      obtain ⟨⟨⟨⟨h1, h2⟩, h3⟩, h4⟩, h5⟩ := hok
+      obtain ⟨⟨⟨h1, h2⟩, h3⟩, h4⟩ := hok
       have hf := leadFold c (trailingTrivia c ti) st.openTrivia st.hasOpenTrivia
-      simp only [blockHeld, h1, hf.1, h2, h3, hd, tokItems, h5, norm, hb]
-      simp
+      simp only [blockHeld, h1, hf.1, h2, h3, hd, tokItems, norm, hb, content_app, content_emitAll]
+      simp [List.append_assoc]
     · by_cases he : c.kind ti = .BlockEnd
       · have hne : (Kind.BlockEnd == Kind.BlockBegin) = false := by decide
         simp only [he, hne, beq_self_eq_true, if_true, Bool.false_eq_true, if_false, Bool.and_eq_true, Bool.or_eq_true, emp_iff] at hok ⊢
